@@ -655,18 +655,16 @@ func (m *Memberlist) Leave(timeout time.Duration) error {
 	}
 
 	if !m.hasLeft() {
-		m.leave.Store(1)
-
+		// Raise the leave flag, read our own incarnation and record the
+		// departure in one critical section. Otherwise an accusation about
+		// us that is processed in between (and refuted, or accepted because
+		// the flag is already up) moves our incarnation and the departure
+		// claim below is dropped as stale: the node would never leave.
 		m.nodeLock.Lock()
+		m.leave.Store(1)
 		state, ok := m.nodeMap[m.config.Name]
-		var incarnation uint32
-		var name string
-		if ok {
-			incarnation = state.Incarnation
-			name = state.Name
-		}
-		m.nodeLock.Unlock()
 		if !ok {
+			m.nodeLock.Unlock()
 			m.logger.Printf("[WARN] memberlist: Leave but we're not in the node map.")
 			return nil
 		}
@@ -676,11 +674,12 @@ func (m *Memberlist) Leave(timeout time.Duration) error {
 		// intentionally. When Node equals From, other nodes know for
 		// sure this node is gone.
 		d := dead{
-			Incarnation: incarnation,
-			Node:        name,
-			From:        name,
+			Incarnation: state.Incarnation,
+			Node:        state.Name,
+			From:        state.Name,
 		}
-		m.deadNode(&d)
+		m.deadNodeLocked(&d)
+		m.nodeLock.Unlock()
 
 		// Block until the broadcast goes out
 		if m.anyAlive() {
